@@ -267,6 +267,16 @@ class Analysis:
                 c = self.P.try_fold(fi.module, e)
                 if c is not None:
                     return dom.const(c) if not isinstance(c, (tuple, frozenset)) else self._const_seq(c)
+            if isinstance(e.value, ast.Name):
+                from .dataflow import origins as _orig, _record_arg
+                du_ = self.du(fi)
+                bo = _orig(du_, n, e.value)
+                if bo and all(_record_arg(du_, o, e.attr) is not None for o in bo):
+                    out = None
+                    for o in bo:
+                        v_ = self.ev(fi, o.node, _record_arg(du_, o, e.attr), depth + 1)
+                        out = join(out, v_) if out is not None else v_
+                    return out
             base = self.ev(fi, n, e.value, depth + 1)
             a = dom.attr(self, fi, n, e, base)
             if a is not None:
@@ -615,6 +625,15 @@ class Analysis:
             m = dom.method(self, fi, n, c, c.func.attr, recv, args)
             if m is not None:
                 return m
+        fields = self.ctx._record_fields(fi, n, c) if d else None
+        if fields and not c.keywords and len(c.args) == len(fields) and not any(isinstance(a, ast.Starred) for a in c.args):
+            return tuple(args)           # NamedTuple / dataclass: kept component-wise
+        if fields and not any(isinstance(a, ast.Starred) for a in c.args):
+            byname = {k.arg: self.ev(fi, n, k.value, depth + 1) for k in c.keywords if k.arg}
+            comp = []
+            for i, f_ in enumerate(fields):
+                comp.append(args[i] if i < len(args) else byname.get(f_, BOT))
+            return tuple(comp)
         r = self.P.resolve_call(fi, c)
         if r.how.startswith("ctor:") and r.how != "ctor:cls":
             return frozenset({"OBJ:" + r.how.split(":", 1)[1]})
